@@ -425,6 +425,7 @@ let () =
         if g "entries" > 1 + g "revives" then bad := Printf.sprintf "unit%d:started-%d-times" i (g "entries") :: !bad;
         if g "finished" > g "entries" then bad := Printf.sprintf "unit%d:finished-more-than-started" i :: !bad;
         if g "lost" <> 0 then bad := Printf.sprintf "unit%d:%d-incarnation(s)-not-cancelled-yet-function-not-run-exactly-once" i (g "lost") :: !bad;
+        if (try g "badstate" <> 0 with Not_found -> false) then bad := Printf.sprintf "unit%d:read-a-state-other-than-RUNNING-for-itself-while-executing" i :: !bad;
         if g "badarg" <> 0 then bad := Printf.sprintf "unit%d:wrong-argument" i :: !bad
       end) !unitstat;
   List.iter (fun (k, sz, tot) -> if k >= 1 && sz <> tot then
